@@ -317,7 +317,85 @@ def monitor(ctx, ev, tx0, q, boundary):
                 ctx.check(sends[q + 1][0]["frm"] == 0 and sends[q + 1][0]["retx"] == 0, "numbering did not restart at zero after RSTACK", "rstack-restart")
 
 
+class MidReset(Harness):
+    """A send is in flight and unacknowledged, an RSTACK arrives (the NCP restarted), a new send is started afterwards:
+    the transmit window must still hold - no second DATA frame goes out while the first one is unacknowledged and its
+    send has not ended."""
+
+    name = "c05_midreset"
+    must_reach = ("old-acked-later", "old-never-acked")
+    functions = ("AshProtocol.send_data", "AshProtocol._send_data_frame", "AshProtocol.rstack_frame_received")
+
+    def run(self, ctx):
+        ash = real_ash()
+        tx0 = (0, 2, 7)[ctx.choice("tx", 3)]
+        rst_at = (0.3, 1.7)[ctx.choice("rstack_at", 2)]
+        new_at = (0.05, 0.5)[ctx.choice("new_send_after", 2)]
+        ack_old = ctx.choice("ack_old_on_attempt", 4)  # 0 = never, k = acknowledge the k-th retransmission of the old frame
+        code = ctx.byte("code")
+        ev = []
+
+        async def main(loop):
+            up = UpperT(loop, ev)
+            p = ash.AshProtocol(up)
+            tr = FakeTransport(loop)
+            p.connection_made(tr)
+            p._tx_seq = tx0
+            seen = {}
+
+            def on_write(data):
+                bs = list(data)
+                fr = R.decode(R.unstuff(bs[:-1]))
+                ev.append(("tx", loop.time(), fr, p._t_rx_ack))
+                if fr[0] != "DATA":
+                    return
+                k = PAY.index(bytes(fr[4]))
+                seen[k] = seen.get(k, 0) + 1
+                if k == 1 or (k == 0 and ack_old and seen[0] == ack_old + 1):
+                    num = (fr[1] + 1) % 8
+                    loop.call_soon(lambda: (ev.append(("rx", loop.time(), "ACK", num)), p.frame_received(ash.AckFrame(res=0, ncp_ready=0, ack_num=num))))
+
+            tr.on_write = on_write
+            out = {}
+
+            async def caller(k):
+                try:
+                    await p.send_data(PAY[k])
+                    out[k] = "ok"
+                except Exception as e:
+                    out[k] = type(e).__name__
+                ev.append(("done", loop.time(), k, out[k]))
+
+            t0 = loop.create_task(caller(0))
+            await asyncio.sleep(rst_at)
+            ev.append(("rx", loop.time(), "RSTACK", code))
+            p.frame_received(ash.RStackFrame(version=2, reset_code=code))
+            await asyncio.sleep(new_at)
+            t1 = loop.create_task(caller(1))
+            try:
+                await asyncio.gather(t0, t1)
+            except vloop.Deadlock:
+                ctx.fail("a send never finished", "send-hangs")
+            await asyncio.sleep(1)
+
+        vloop.run(main)
+        ctx.label("old-acked-later" if ack_old else "old-never-acked")
+        # the window: when the first DATA frame of the new send is written, the old send must have ended
+        first_new = [i for i, e in enumerate(ev) if e[0] == "tx" and e[2][0] == "DATA" and bytes(e[2][4]) == PAY[1]]
+        old_done = [i for i, e in enumerate(ev) if e[0] == "done" and e[2] == 0]
+        old_acked = [i for i, e in enumerate(ev) if e[0] == "rx" and e[2] == "ACK" and any(x[0] == "tx" and x[2][0] == "DATA" and bytes(x[2][4]) == PAY[0] and (x[2][1] + 1) % 8 == e[3] for x in ev[:i])]
+        if first_new:
+            ended = (old_done and old_done[0] < first_new[0]) or (old_acked and old_acked[0] < first_new[0])
+            ctx.check(bool(ended), "a second DATA frame was written while the first send's frame was still unacknowledged and its send had not ended (RSTACK in between)", "two-outstanding-after-rstack")
+        # budget and stability of the old send across the RSTACK
+        old = [e for e in ev if e[0] == "tx" and e[2][0] == "DATA" and bytes(e[2][4]) == PAY[0]]
+        ctx.check(len(old) <= R.MAX_ATTEMPTS, "old send transmitted %d times" % len(old), "budget-exceeded")
+        ctx.check(all(e[2][1] == old[0][2][1] for e in old), "old send changed its frame number across the RSTACK", "frmnum-changed")
+        ctx.observe([_short(e) for e in ev])
+
+
 SEND = Send()
+MIDRESET = MidReset()
 
 FLOATS = [float("nan"), float("inf"), float("-inf"), -1.0, 0.0, 0.39, 0.4, 0.41, 1.6, 3.19, 3.2, 3.21, 6.4, 1e308, -1e308, 5e-324]
 
@@ -377,7 +455,7 @@ def main(tier):
         "peer scripted at frame level (frames injected as objects through AshProtocol.frame_received, each as its own loop callback); wire decoding is C02/C03",
         "virtual-time event loop; bellows.ash.time bound to the loop clock",
         "a NAK carries the number of the frame it rejects (conforming peer); acknowledgements exactly at the timer instant are don't-care for the outcome/notification clauses",
-        "RSTACK is injected only after the link failed (numbering restart while a frame is in flight is discussed under C09/D6)",
+        "in the reaction-schedule harness RSTACK is injected only after the link failed; a separate harness delivers an RSTACK while a send is in flight and checks only the transmit window, the attempt budget and the stability of the frame number (numbering after such a restart is the subject of known finding D6)",
         "reference constants (attempt budget 5, timeout range 0.4..3.2 s) from UG101, not read from bellows",
     ]
     if tier == "quick":
@@ -390,6 +468,7 @@ def main(tier):
         c.run("checks.c05:SEND", {"q": 3, "T": 6, "stale": 0, "timing": 0, "txs": [6]})
         c.run("checks.c05:SEND", {"q": 2, "T": 6, "stale": 0, "timing": 2, "txs": [7]})
         c.out_of_bounds += ["free peer reactions beyond the first 6-7 DATA transmissions", "more than two off-instant reactions per run"]
+    c.run("checks.c05:MIDRESET", {})
     c.run("checks.c05:CLAMP", {})
     ok, bad, out = lemma_timeout_clamp(c)
     if bad and not c.violation_lines:
